@@ -430,4 +430,119 @@ Section Laws.
                s hdr payload padding _ padl eq_refl Hh Hl Hpad ltac:(lia)).
     cbn [seqno]. rewrite Es. eexists. reflexivity.
   Qed.
+
+  (* the cipher kinds the theorem covers: the parameters of the state are those
+     of the primitives; TLS 1.3 uses an AEAD without explicit nonce *)
+  Definition wf_state (st : hstate) : Prop :=
+    match knd st with
+    | KNull => False
+    | KStream ms => ms = MS /\ 0 <= MS /\ version st <> VersionTLS13
+    | KCbc bs ms => bs = BS /\ ms = MS /\ 0 < BS <= 256 /\ 0 <= MS <= 1024 /\ version st <> VersionTLS13
+    | KAead e ovh => ovh = OVH /\ 0 <= OVH /\ 0 <= e /\ (e <= 8 \/ 16 <= e) /\
+                     (version st = VersionTLS13 -> e = 0)
+    end.
+
+  (* a record header as writeRecordLocked builds it for this payload *)
+  Definition wf_header (st : hstate) (hdr payload : bytes) : Prop :=
+    length hdr = 5%nat /\ skipn 3 hdr = be16 (zlen payload) /\ zlen payload <= 16384 /\
+    wf_bytes payload /\ (version st = VersionTLS13 -> hd0 hdr <> 0%N).
+
+  Theorem decrypt_encrypt st hdr payload rnd rec st' calls :
+    wf_state st -> wf_header st hdr payload ->
+    enc st hdr payload rnd = Ok (rec, st', calls) ->
+    exists calls', dec st rec = Ok (payload, hd0 hdr, st', calls').
+  Proof.
+    intros Hst (Hh & Hl & Hmax & Hwf & H13) He. unfold wf_state in Hst.
+    destruct (knd st) as [|ms|bs ms|e ovh] eqn:Hk; [contradiction| | |].
+    - destruct Hst as (H1 & H2 & H3). eapply dec_enc_stream; eauto.
+    - destruct Hst as (H1 & H2 & H3 & H4 & H5). eapply dec_enc_cbc; eauto.
+    - destruct Hst as (H1 & H2 & H3 & H4 & H5). eapply dec_enc_aead; eauto.
+  Qed.
+
+  (* both sequence numbers advance by exactly one *)
+  Lemma encrypt_seq st hdr payload rnd rec st' calls :
+    knd st <> KNull ->
+    enc st hdr payload rnd = Ok (rec, st', calls) ->
+    inc_seq (seqno st) = Some (seqno st') /\ knd st' = knd st /\ version st' = version st.
+  Proof.
+    intros Hk He. unfold half_encrypt, finish in He.
+    destruct (knd st) as [|ms|bs ms|e ovh] eqn:Ek; [contradiction| | |];
+      repeat match type of He with
+             | (if ?c then _ else _) = _ => destruct c
+             | match inc_seq ?s with _ => _ end = _ => destruct (inc_seq s) eqn:?
+             end; try discriminate;
+      injection He as _ <- _; cbn [seqno knd version with_seq]; auto.
+  Qed.
+
+  (* shape and length of what encrypt puts on the wire *)
+  Definition outer_hdr (st : hstate) (hdr : bytes) : bytes :=
+    if version st =? VersionTLS13 then 23%N :: skipn 1 hdr else hdr.
+
+  Lemma enc_shape st hdr payload rnd rec st' calls :
+    wf_state st -> length hdr = 5%nat ->
+    enc st hdr payload rnd = Ok (rec, st', calls) ->
+    exists body, rec = set_len (outer_hdr st hdr) (zlen body) ++ body /\
+                 zlen body = enc_len st (zlen payload) - 5 /\
+                 length (outer_hdr st hdr) = 5%nat.
+  Proof.
+    intros Hst Hh He. unfold wf_state in Hst.
+    assert (Hoh : length (outer_hdr st hdr) = 5%nat).
+    { unfold outer_hdr. destruct (version st =? VersionTLS13); [|exact Hh].
+      cbn [length]. rewrite skipn_length, Hh. reflexivity. }
+    destruct st as [v k s iv0 sp]. cbn [knd version] in Hst.
+    unfold outer_hdr, enc_len in *. cbn [knd version] in *.
+    unfold half_encrypt, explicit_nonce_len, finish in He.
+    cbn [knd version seqno civ spos] in He.
+    destruct k as [|ms|bs ms|e ovh]; [contradiction| | |].
+    - (* stream *)
+      destruct Hst as (-> & HMS & Hv).
+      replace (v =? VersionTLS13) with false in * by (symmetry; now apply Z.eqb_neq).
+      cbn [is_cbc orb] in He. change (0 <? 0) with false in He. cbn [andb] in He.
+      destruct (inc_seq s) as [s1|]; [|discriminate].
+      injection He as Hrec _ _. subst rec. cbn [app].
+      rewrite (set_rec_len_app _ _ Hh). eexists. split; [reflexivity|]. split; [|exact Hh].
+      rewrite zlen_app, !stream_len, mac_len. lia.
+    - (* CBC *)
+      destruct Hst as (-> & -> & HBS & HMS & Hv).
+      replace (v =? VersionTLS13) with false in * by (symmetry; now apply Z.eqb_neq).
+      cbn [is_cbc orb] in He.
+      set (e := if v >=? VersionTLS11 then BS else 0) in *.
+      rewrite !andb_true_r in He.
+      destruct ((0 <? e) && (zlen rnd <? e)) eqn:Efr; [discriminate|].
+      set (en := if 0 <? e then _ else _) in He.
+      assert (Hen : zlen en = e).
+      { subst en e. destruct (v >=? VersionTLS11).
+        - replace (0 <? BS) with true in * by (symmetry; apply Z.ltb_lt; lia).
+          cbn [andb] in Efr. apply Z.ltb_ge in Efr. apply zlen_ztake; lia.
+        - reflexivity. }
+      clearbody en.
+      destruct (inc_seq s) as [s1|]; [|discriminate].
+      injection He as Hrec _ _. subst rec.
+      rewrite (set_rec_len_app _ _ Hh). eexists. split; [reflexivity|]. split; [|exact Hh].
+      rewrite zlen_app, cbc_len, !zlen_app, mac_len, zlen_repeat, Hen.
+      unfold explicit_nonce_len. cbn [knd version]. fold e.
+      pose proof (Z.mod_pos_bound (zlen payload + MS) BS ltac:(lia)). lia.
+    - (* AEAD *)
+      destruct Hst as (-> & HO & He0 & Hrange & H13).
+      cbn [is_cbc orb] in He.
+      set (from_rand := (0 <? e) && (16 <=? e)) in He.
+      destruct (from_rand && (zlen rnd <? e)) eqn:Efr; [discriminate|].
+      set (en := if 0 <? e then _ else _) in He.
+      assert (Hen : zlen en = e).
+      { subst en. destruct (Z.ltb_spec 0 e) as [L|L]; [|rewrite zlen_nil; lia].
+        destruct from_rand eqn:Ef.
+        - cbn [andb] in Efr. apply Z.ltb_ge in Efr. apply zlen_ztake. lia.
+        - subst from_rand. apply andb_false_iff in Ef as [Ef|Ef]; [first [discriminate | apply Z.ltb_ge in Ef; lia]|].
+          apply Z.leb_gt in Ef. apply zlen_ztake. rewrite zlen_seq8. lia. }
+      clearbody en. clear Efr. clearbody from_rand.
+      destruct (v =? VersionTLS13) eqn:E13; cbv beta iota zeta in He;
+        (destruct (inc_seq s) as [s1|]; [|discriminate]); injection He as Hrec _ _; subst rec.
+      + set (h23 := 23%N :: skipn 1 hdr) in *.
+        rewrite (set_rec_len_app _ _ (set_len_length _ _ Hoh)).
+        rewrite set_len_idem by exact Hoh.
+        eexists. split; [reflexivity|]. split; [|exact Hoh].
+        rewrite seal_len, !zlen_app, Hen, zlen_cons, zlen_nil. lia.
+      + rewrite (set_rec_len_app _ _ Hh). eexists. split; [reflexivity|]. split; [|exact Hh].
+        rewrite zlen_app, seal_len, Hen. lia.
+  Qed.
 End Laws.
